@@ -20,6 +20,8 @@ E2 (explicit-state BFS over scoring histories, expand):
   state  = (tree, contents of every node's cached state-set attributes);
   moves  = parsimony_score x 4 matrices (1, 2, 3, 1 columns) x gap mode x weights x per-character list,
            fitch_down_pass x 4 matrices x gap mode x {default, custom, no} attribute,
+           the same two calls (reduced flag menu) x 3 degenerate matrices: no columns at all, every cell
+           gap / missing, one constant column - in every position of a history,
            fitch_up_pass x {default, custom} attribute;
   oracle = the value returned on the live (used) tree equals the value the same call
            returns on a freshly built copy (which is compared with the brute force at
@@ -122,14 +124,14 @@ def bounds(tier):
                          [2, "std5", "all"], [3, "std5", "all"], [4, "std5", "base+rev"]],
                 "single": [[1, "dna8"], [2, "dna8"], [3, "dna8"], [4, "dna8"], [3, "std5"]],
                 "weights_max_leaves": 4, "weights": [0, 1, 2], "pool_columns": 5,
-                "e2_max_leaves": 4, "e2_depth": 3, "e2_matrices": 4, "e2_extra": {"leaves": 5, "depth": 2}}
+                "e2_max_leaves": 4, "e2_depth": 3, "e2_matrices": 7, "e2_extra": {"leaves": 5, "depth": 2, "matrices": 5}}
     return {"wide": [[2, "dna8", "all"], [3, "dna8", "all"], [4, "dna8", "all"], [5, "dna8", "base+rev"],
                      [5, "dna5", "swaps"], [6, "dna6", "base+rev"], [2, "dna17", "all"], [3, "dna17", "all"],
                      [4, "dna17", "base+rev"], [2, "std5", "all"], [3, "std5", "all"], [4, "std5", "all"],
                      [5, "std5", "base+rev"]],
             "single": [[1, "dna8"], [2, "dna8"], [3, "dna8"], [4, "dna8"], [5, "dna5"], [3, "std5"], [4, "std5"]],
             "weights_max_leaves": 5, "weights": [0, 1, 2], "pool_columns": 5,
-            "e2_max_leaves": 4, "e2_depth": 5, "e2_matrices": 4, "e2_extra": {"leaves": 5, "depth": 3}}
+            "e2_max_leaves": 4, "e2_depth": 5, "e2_matrices": 7, "e2_extra": {"leaves": 5, "depth": 3, "matrices": 7}}
 
 
 def tup(x):
@@ -624,6 +626,22 @@ def run_weights(chunk, ctx):
                         ctx.case(("call", n, d, cols, gaps, None if wv is None else tuple(wv), route, None), nontrivial=n >= 3)
                         ctx.count("weighted_calls" if wv is not None else "multi_column_unweighted_calls")
                         check_call(case, ctx, memo=memo)
+        # degenerate matrices: no columns; every cell gap / missing; constant columns
+        D = ["-" * n, "?" * n, "".join("-?"[i % 2] for i in range(n)), "A" * n, "N" * n]
+        deg = [((), [None, []])]
+        for k in (1, 2):
+            for cols in itertools.product(D, repeat=k):
+                deg.append((cols, [None, [2, 1][:k]]))
+        for cols, wvs in deg:
+            for wv in wvs:
+                for route in ROUTES:
+                    case = {"kind": "call", "n": n, "shape": d, "mtype": "dna", "cols": list(cols), "gaps": gaps,
+                            "weights": wv, "route": route, "rows": None}
+                    ctx.case(("call", n, d, cols, gaps, None if wv is None else tuple(wv), route, None), nontrivial=n >= 3)
+                    ctx.count("degenerate_matrix_calls")
+                    if not cols:
+                        ctx.count("zero_column_matrix_calls")
+                    check_call(case, ctx, memo=memo)
         # rows for taxa that are not on the tree, other namespace orders
         for cols in itertools.product(P, repeat=2):
             for rv in ROWS_VARIANTS[1:]:
@@ -679,12 +697,14 @@ def e1_chunks(tier):
 # E2: scoring histories on one tree object
 
 ATTRS = {"default": "state_sets", "custom": CUSTOM_ATTR}
-E2_WEIGHTS = [[2], [2, 1], [2, 1, 0], [1]]
+E2_WEIGHTS = [[2], [2, 1], [2, 1, 0], [1], [], [1, 2], [2]]
+E2_DEGENERATE_FROM = 4      # M4 no columns, M5 every cell gap / missing, M6 one constant column
 
 
 def e2_cols(n):
     P = pool(n, 6)
-    return [[P[0]], [P[1], P[4]], [P[2], P[3], P[4]], [P[3]]]
+    return [[P[0]], [P[1], P[4]], [P[2], P[3], P[4]], [P[3]],
+            [], ["".join("-?"[i % 2] for i in range(n)), "?" * n], ["A" * n]]
 
 
 def e2_start_shape(start):
@@ -835,6 +855,14 @@ def e2_py(op):
 def e2_ops(live, nmat):
     ops = []
     for mi in range(nmat):
+        if mi >= E2_DEGENERATE_FROM:
+            # degenerate matrices: reduced menu (their state sets do not depend on the flags)
+            for gaps in (1, 0):
+                ops.append(("ps", mi, gaps, 0, 0))
+                ops.append(("ps", mi, gaps, 1, 1))
+            for attr in ("default", "custom", "none"):
+                ops.append(("down", mi, 1, attr))
+            continue
         for gaps in (1, 0):
             for w in (0, 1):
                 for sb in (0, 1):
@@ -887,7 +915,7 @@ def e2_step(h, op, ctx):
     op = tup(op)
     hops = tuple(tup(o) for o in h[1])
     case = {"kind": "hist", "start": list(start), "ops": [list(o) for o in hops] + [list(op)],
-            "tree": newick(e2_start_shape(start)), "matrices": ["M%d=%s" % (i, "/".join(c)) for i, c in enumerate(e2_cols(start[0]))],
+            "tree": newick(e2_start_shape(start)), "matrices": ["M%d=%s" % (i, "/".join(c) if c else "(no columns)") for i, c in enumerate(e2_cols(start[0]))],
             "py": [e2_py(o) for o in hops] + [e2_py(op)]}
     site = e2_site(op)
 
@@ -948,6 +976,8 @@ def e2_step(h, op, ctx):
                                 cands.append(sum(doc))
                             explained = res[1][0] in cands
                     feat = "as-if-scored-with-leaf-sets-recorded-by-earlier-call" if explained else "not-explained-by-recorded-leaf-sets"
+                    if kcs == {0}:
+                        feat = "after-zero-column-matrix"      # the leaves carry empty (falsy) state-set lists
                     if op[0] == "down" and op[3] != "none":
                         # documented re-use of recorded sets (see ASSUMPTIONS)
                         if same_dims:
@@ -972,7 +1002,7 @@ def expand(chunk, ctx):
         h = (tuple(h[0]), tuple(tup(o) for o in h[1]))
         live = rebuild(h)
         skey = live.key()
-        ops = e2_ops(live, b["e2_matrices"])
+        ops = e2_ops(live, chunk.get("nmat") or b["e2_matrices"])
         ctx.count("expanded_states")
         ctx.maximum("ops_enabled_in_one_state", len(ops))
         for op in ops:
@@ -1010,7 +1040,7 @@ def explore(tier, runner):
     if b.get("e2_extra"):
         x = b["e2_extra"]
         st2 = [(Live(s).key(), (s, ())) for s in e2_starts(x["leaves"], x["leaves"])]
-        r2 = hist.bfs(runner, "expand", st2, x["depth"], chunk_size=6, extra={"tier": tier})
+        r2 = hist.bfs(runner, "expand", st2, x["depth"], chunk_size=6, extra={"tier": tier, "nmat": x.get("matrices")})
         runner.notes.append("E2: BFS to depth %d from %d start trees (n = %d): states per level %s" % (
             x["depth"], len(st2), x["leaves"], r2["levels"]))
 
